@@ -52,8 +52,28 @@ def graph(k):
     return d
 
 
+def pools_mc(work, res):
+    """spec/Pools.tla: results are history independent with the three reset disciplines of the code, and TLC must
+    find a dependence when any one of them is removed (so the model can see what the property is about)"""
+    import os
+    info = {}
+    for cfgname, must_hold in (("Pools", True), ("PoolsNoClear", False), ("PoolsNoReset", False), ("PoolsNoZero", False)):
+        d = work.sub("pools")
+        cfg = open(os.path.join(vlib.SPEC, cfgname + ".cfg")).read()
+        out, st = vlib.tlc(d, "Pools", cfg, workers=4, timeout=900, heap="4g")
+        held = st.get("exit") == 0 and "No error has been found" in out
+        if held != must_hold:
+            raise vlib.MachineryError("Pools.tla/%s: expected %s (model-level lead, not a verdict)" % (cfgname, "no error" if must_hold else "a counterexample"))
+        res.tlc_states += st.get("distinct", 0)
+        res.tlc_transitions += st.get("generated", 0)
+        info[cfgname] = {"distinct_states": st.get("distinct"), "generated": st.get("generated"),
+                         "result": "HistoryIndependence holds" if held else "counterexample found (expected: a reset discipline removed)"}
+    res.extra["pools_model"] = info
+
+
 def run(prop, tier, seed, work):
     res = suite.Result(prop, tier, seed)
+    pools_mc(work, res)
     rng = random.Random(seed * 3571 + 29)
     quick = tier == "quick"
     ncopies = 24 if quick else 1200
